@@ -152,6 +152,8 @@ def payload_classes(rng) -> dict[str, bytes]:
         "binary": bytes(rng.randrange(256) for _ in range(47)),
         "dots": b"a.b.c..d",
         "urlsafe": b"abc-DEF_123~xyz",
+        # URL-safe characters with one line feed / carriage return at an edge ("$" in a regular expression matches before a final line feed)
+        "urlsafe_nl": b"token_123~\n", "nl_urlsafe": b"\ntoken_123", "urlsafe_cr": b"token-abc\r", "word_unicode": "Grüße日本語".encode("utf-8"), "word_digits": "١٢٣".encode("utf-8"),
         "n31": os.urandom(31), "n32": os.urandom(32), "n33": os.urandom(33),
         "json": b'{"iss":"joe","exp":1300819380}',
         "b300": bytes(rng.randrange(256) for _ in range(300)),
